@@ -305,7 +305,7 @@ def rule_oracles(ctx):
     wrong = [(c, norm.get(c, c), v) for c, v in sorted(want.items()) if norm.get(c, c) != v]
     twhere = "matcher/src/chars/normalize.rs"
     if wrong:
-        for c, got, v in wrong[:8]:
+        for c, got, v in wrong[:40]:
             ctx.violation("normalize|nfkd|U+%04X" % c, twhere, "U+%04X decomposes (NFKD) to '%s' + combining marks but normalizes to %s" % (c, chr(v), ("'%s'" % chr(got)) if got != c else "itself"))
     else:
         ctx.ok(twhere, "all %d block characters whose NFKD is an ASCII letter/digit + marks map to exactly that letter/digit" % len(want))
